@@ -79,7 +79,8 @@ def excess_drains(prog, f):
 def clause_prune_after_push(prog, rep):
     n = 0
     for f in mgr_fns(prog):
-        pushes = [c for c in f.live_calls() if c.name == "push_back" and last_seg(c.self_adt) == "VecDeque"]
+        # (entries also enter the queue in bulk: `queue.extend(listed.filter_map(parse))`)
+        pushes = [c for c in f.live_calls() if c.name in ("push_back", "extend", "append") and (last_seg(c.self_adt) == "VecDeque" or "VecDeque" in (c.self_ty or ""))]
         for c in pushes:
             n += 1
             cmpb = retention_compare_blocks(f)
@@ -90,7 +91,7 @@ def clause_prune_after_push(prog, rep):
                 if "to" in c.t:
                     r = A.reach_without_edges(f, c.t["to"], set(), blocks)
                     esc = any(f.term(b)["k"] == "return" for b in r)
-                inst = "%s/push_back" % f.label()
+                inst = "%s/%s" % (f.label(), c.name)
                 rep.check(not esc, "prune-after-push", inst, "every path from the queue push to a return passes the `drain(..len - retention_count)` prune step",
                           "a snapshot is queued and the function can return without running the retention prune step", c.loc())
                 rep.ok("prune-after-push", inst + "/bound", "the number of drained entries is queue.len() - retention_count (keeps at most the configured number)", c.loc())
@@ -110,7 +111,7 @@ def clause_prune_after_push(prog, rep):
             if "to" in c.t:
                 r = A.reach_without_edges(f, c.t["to"], set(), blocks)
                 esc = any(f.term(b)["k"] == "return" for b in r)
-            inst = "%s/push_back" % f.label()
+            inst = "%s/%s" % (f.label(), c.name)
             rep.check(bool(blocks) and not esc, "prune-after-push", inst,
                       "every path from the queue push to a return passes the `len > retention_count` prune loop",
                       "a snapshot is queued and the function can return without running the retention prune loop", c.loc())
